@@ -363,6 +363,180 @@ def generateAssignments (members : List Member) (tp : Dict Str (List Int)) : Exc
   | .error e => .error e
   | .ok asg => encodeEach asg members
 
+/-! ## Member metadata: `encode_join_group_protocol_metadata` / `decode_join_group_protocol_metadata`
+
+The subscriptions travel as UTF-8 short strings (`write_short_text` / `read_short_text`). -/
+
+/-- UTF-8 bytes of one code point; surrogates and values above U+10FFFF cannot be encoded
+    (`UnicodeEncodeError`). -/
+def utf8EncodeChar (c : Nat) : Except Err Bytes :=
+  if c < 0x80 then .ok [UInt8.ofNat c]
+  else if c < 0x800 then .ok [UInt8.ofNat (0xC0 + c / 64), UInt8.ofNat (0x80 + c % 64)]
+  else if c < 0x10000 then
+    if 0xD800 ≤ c ∧ c ≤ 0xDFFF then .error .unicodeEncode
+    else .ok [UInt8.ofNat (0xE0 + c / 4096), UInt8.ofNat (0x80 + c / 64 % 64), UInt8.ofNat (0x80 + c % 64)]
+  else if c < 0x110000 then
+    .ok [UInt8.ofNat (0xF0 + c / 262144), UInt8.ofNat (0x80 + c / 4096 % 64), UInt8.ofNat (0x80 + c / 64 % 64),
+      UInt8.ofNat (0x80 + c % 64)]
+  else .error .unicodeEncode
+
+/-- `s.encode("utf-8")` -/
+def utf8Encode : Str → Except Err Bytes
+  | [] => .ok []
+  | c :: s =>
+    match utf8EncodeChar c, utf8Encode s with
+    | .ok b, .ok bs => .ok (b ++ bs)
+    | _, _ => .error .unicodeEncode
+
+/-- continuation byte `10xxxxxx` -/
+def isCont (b : UInt8) : Bool := 0x80 ≤ b.toNat && b.toNat ≤ 0xBF
+
+/-- The first code point of a UTF-8 byte string and the rest, by CPython's strict decoder (RFC 3629:
+    no overlong forms, no surrogates, nothing above U+10FFFF); `none` is `UnicodeDecodeError`. -/
+def utf8Next : Bytes → Option (Nat × Bytes)
+  | [] => none
+  | b0 :: rest =>
+    let n0 := b0.toNat
+    if n0 < 0x80 then some (n0, rest)
+    else if 0xC2 ≤ n0 ∧ n0 ≤ 0xDF then
+      match rest with
+      | b1 :: rest => if isCont b1 then some ((n0 - 0xC0) * 64 + (b1.toNat - 0x80), rest) else none
+      | _ => none
+    else if 0xE0 ≤ n0 ∧ n0 ≤ 0xEF then
+      match rest with
+      | b1 :: b2 :: rest =>
+        let lo := if n0 = 0xE0 then 0xA0 else 0x80
+        let hi := if n0 = 0xED then 0x9F else 0xBF
+        if lo ≤ b1.toNat ∧ b1.toNat ≤ hi ∧ isCont b2 then
+          some ((n0 - 0xE0) * 4096 + (b1.toNat - 0x80) * 64 + (b2.toNat - 0x80), rest)
+        else none
+      | _ => none
+    else if 0xF0 ≤ n0 ∧ n0 ≤ 0xF4 then
+      match rest with
+      | b1 :: b2 :: b3 :: rest =>
+        let lo := if n0 = 0xF0 then 0x90 else 0x80
+        let hi := if n0 = 0xF4 then 0x8F else 0xBF
+        if lo ≤ b1.toNat ∧ b1.toNat ≤ hi ∧ isCont b2 ∧ isCont b3 then
+          some ((n0 - 0xF0) * 262144 + (b1.toNat - 0x80) * 4096 + (b2.toNat - 0x80) * 64 + (b3.toNat - 0x80), rest)
+        else none
+      | _ => none
+    else none
+
+/-- `b.decode("utf-8")` with one unit of fuel per byte (every step consumes at least one byte, so
+    `b.length` is enough; `Err.diverges` marks the unreachable exhaustion). -/
+def utf8DecodeFuel : Nat → Bytes → Except Err Str
+  | _, [] => .ok []
+  | 0, _ :: _ => .error .diverges
+  | fuel + 1, b :: bs =>
+    match utf8Next (b :: bs) with
+    | none => .error .unicodeDecode
+    | some (c, rest) =>
+      match utf8DecodeFuel fuel rest with
+      | .error e => .error e
+      | .ok s => .ok (c :: s)
+
+def utf8Decode (b : Bytes) : Except Err Str := utf8DecodeFuel b.length b
+
+/-- `write_short_text(s)` for a `str` -/
+def writeShortText (s : Str) : Except Err Bytes :=
+  match utf8Encode s with
+  | .error e => .error e
+  | .ok b => writeShortBytes b
+
+/-- `read_short_text(data, cur)` -/
+def readShortText (data : Bytes) (cur : Int) : Except Err (Str × Int) :=
+  match readShortBytes data cur with
+  | .error e => .error e
+  | .ok (none, _) => .error .attributeError
+  | .ok (some b, cur') =>
+    match utf8Decode b with
+    | .error e => .error e
+    | .ok s => .ok (s, cur')
+
+def encodeSubs : List Str → Except Err Bytes
+  | [] => .ok []
+  | t :: ts =>
+    match writeShortText t with
+    | .error e => .error e
+    | .ok tb =>
+      match encodeSubs ts with
+      | .error e => .error e
+      | .ok rb => .ok (tb ++ rb)
+
+/-- `KafkaCodec.encode_join_group_protocol_metadata(version, subscriptions, user_data)` -/
+def encodeMetadata (version : Int) (subs : List Str) (userData : Bytes) : Except Err Bytes :=
+  match packInt asgMmEncVersionW version, packInt asgMmEncNumSubsW subs.length with
+  | .ok vb, .ok nb =>
+    match encodeSubs subs with
+    | .error e => .error e
+    | .ok sb =>
+      match writeIntString userData with
+      | .error e => .error e
+      | .ok ub => .ok (vb ++ nb ++ sb ++ ub)
+  | _, _ => .error .structError
+
+/-- `_ConsumerProtocol.join_group_protocols(topics)[0].protocol_metadata` -/
+def joinGroupMetadata (topics : List Str) : Except Err Bytes := encodeMetadata asgMmEncodedVersion topics []
+
+/-- The `for _i in range(num_subscriptions)` loop of the metadata decoder. -/
+def decodeSubs (data : Bytes) : Nat → Int → List Str → Except Err (List Str × Int)
+  | 0, cur, acc => .ok (acc, cur)
+  | n + 1, cur, acc =>
+    match readShortText data cur with
+    | .error e => .error e
+    | .ok (s, cur) => decodeSubs data n cur (acc ++ [s])
+
+/-- `KafkaCodec.decode_join_group_protocol_metadata(data)` → `(version, subscriptions, user_data)` -/
+def decodeMetadata (data : Bytes) : Except Err (Int × List Str × Option Bytes) :=
+  match relUnpack2 asgMmDecVersionW asgMmDecNumSubsW data 0 with
+  | .error e => .error e
+  | .ok (version, numSubs, cur) =>
+    match decodeSubs data numSubs.toNat cur [] with
+    | .error e => .error e
+    | .ok (subs, cur) =>
+      match readIntString data cur with
+      | .error e => .error e
+      | .ok (userData, _) => .ok (version, subs, userData)
+
+/-- What the coordinator lists when every member joined with `join_group_protocols(subscriptions)`. -/
+def wireOf : List Member → Except Err (List (Str × Bytes))
+  | [] => .ok []
+  | m :: ms =>
+    match joinGroupMetadata m.2 with
+    | .error e => .error e
+    | .ok b =>
+      match wireOf ms with
+      | .error e => .error e
+      | .ok r => .ok ((m.1, b) :: r)
+
+/-- The first loop of `generate_assignments`: decode every listed member's metadata, in order. -/
+def decodeMembers : List (Str × Bytes) → Except Err (List Member)
+  | [] => .ok []
+  | m :: ms =>
+    match decodeMetadata m.2 with
+    | .error e => .error e
+    | .ok (_, subs, _) =>
+      match decodeMembers ms with
+      | .error e => .error e
+      | .ok r => .ok ((m.1, subs) :: r)
+
+/-- `_ConsumerProtocol.generate_assignments(members, topic_partitions)` on the wire-level members
+    `(member_id, member_metadata bytes)`. -/
+def generateAssignmentsB (members : List (Str × Bytes)) (tp : Dict Str (List Int)) : Except Err (List (Str × Bytes)) :=
+  match decodeMembers members with
+  | .error e => .error e
+  | .ok ms => generateAssignments ms tp
+
+/-! ## The leader's glue in `Coordinator._join_and_sync` -/
+
+/-- `generate_assignments(members, {})`, and on `_NeedTopicPartitions as e` once more with
+    `topic_partitions = load(*e.topics)` (`client._load_topic_partitions`, a parameter). -/
+def leaderAssign (members : List (Str × Bytes)) (load : List Str → Dict Str (List Int)) :
+    Except Err (List (Str × Bytes)) :=
+  match generateAssignmentsB members [] with
+  | .error (.need topics) => generateAssignmentsB members (load topics)
+  | r => r
+
 /-- What each listed member is handed before encoding (`assignments.get(id, {})` per member). -/
 def perMember (asg : Asg) (members : List Member) : List (Str × Dict Str (List Int)) :=
   members.map (fun m => (m.1, assignmentOf asg m.1))
